@@ -442,19 +442,25 @@ package stack
 //@   loop 0: invariant forall j :: rangeindex < j && j < len(out.Values) ==> !out.Values[j].IsOffsetTooLarge && !out.Values[j].IsAggregate
 //@   loop 0: decreases len(a.Values) - rangeindex
 
+//@ pred MergedCall(k *Call, c *Call, r *Call) = CallKeyKept(k, c) && k.Args.Elided == c.Args.Elided && rootOf(k.Args.Values) > rootOf(k) && MergedVals(k.Args.Values, c.Args.Values, r.Args.Values)
+//@ pred noinline ordered MergedCalls(k []Call, c []Call, r []Call) = len(k) == len(c) && forall i :: 0 <= i && i < len(k) ==> MergedCall(&k[i], &c[i], &r[i])
+
 //@ func (*Call).merge
 //@   requires c != nil && r != nil && SimVals(c.Args.Values, r.Args.Values, AnyValue)
 //@   modifies nothing
 //@   ensures [callMergeKeepsFrame C12] result.Line == c.Line && result.Func.Complete == c.Func.Complete && result.Func.IsPkgMain == c.Func.IsPkgMain && result.RemoteSrcPath == c.RemoteSrcPath && result.DirSrc == c.DirSrc && result.Location == c.Location && result.SrcName == c.SrcName && result.Func.Name == c.Func.Name && result.Func.ImportPath == c.Func.ImportPath && result.Func.DirName == c.Func.DirName && result.Func.IsExported == c.Func.IsExported && result.LocalSrcPath == c.LocalSrcPath && result.RelSrcPath == c.RelSrcPath && result.ImportPath == c.ImportPath
 //@   ensures [callMergeArgsShape C12] len(result.Args.Values) == len(c.Args.Values) && result.Args.Elided == c.Args.Elided && fresh(result.Args.Values)
+//@   ensures [callMergeArgsPrecise C12] MergedVals(result.Args.Values, c.Args.Values, r.Args.Values)
 
 //@ func (*Stack).merge
 //@   requires s != nil && r != nil && SimStack(s, r, AnyValue)
 //@   modifies nothing
 //@   ensures [stackMergeShape C12] result != nil && fresh(result) && fresh(result.Calls) && len(result.Calls) == len(s.Calls) && result.Elided == s.Elided
 //@   ensures [stackMergeKeepsFrames C12] forall i :: 0 <= i && i < len(s.Calls) ==> CallKeyKept(&result.Calls[i], &s.Calls[i])
+//@   ensures [stackMergePrecise C12] MergedCalls(result.Calls, s.Calls, r.Calls)
 //@   loop 0: invariant -1 <= rangeindex && rangeindex < len(s.Calls) && s != nil && r != nil && out != nil && fresh(out) && fresh(out.Calls) && len(out.Calls) == len(s.Calls) && out.Elided == s.Elided && len(s.Calls) == len(r.Calls)
 //@   loop 0: invariant forall j :: 0 <= j && j <= rangeindex ==> CallKeyKept(&out.Calls[j], &s.Calls[j])
+//@   loop 0: invariant [callsMergedSoFar C12] live(out.Calls) && forall j :: 0 <= j && j <= rangeindex ==> MergedCall(&out.Calls[j], &s.Calls[j], &r.Calls[j])
 //@   loop 0: decreases len(s.Calls) - rangeindex
 
 //@ func (*Signature).merge
@@ -467,6 +473,7 @@ package stack
 //@   ensures [sigMergeLocked C12] result.Locked <==> (s.Locked || r.Locked)
 //@   ensures [sigMergeStackShape C12] fresh(result.Stack.Calls) && len(result.Stack.Calls) == len(s.Stack.Calls) && result.Stack.Elided == s.Stack.Elided
 //@   ensures [sigMergeKeepsFrames C12] forall i :: 0 <= i && i < len(s.Stack.Calls) ==> CallKeyKept(&result.Stack.Calls[i], &s.Stack.Calls[i])
+//@   ensures [sigMergePrecise C12] MergedCalls(result.Stack.Calls, s.Stack.Calls, r.Stack.Calls) && rootOf(result.Stack.Calls) > rootOf(result)
 
 // ---- bucket.go: Aggregate (C04, C13, C14) ------------------------------------------
 //@ pred SnapOK(s *Snapshot) = s != nil && forall i :: 0 <= i && i < len(s.Goroutines) ==> s.Goroutines[i] != nil && LocsOK(s.Goroutines[i].Stack.Calls)
